@@ -32,6 +32,11 @@ pub struct State {
     /// (ca, parent) -> the entitlement classes shown after the last check.
     pub classes_shown: BTreeMap<(String, String), Value>,
     pub entitlement_checks: u64,
+    /// CAs whose publisher the server's operator removed (content wiped)
+    /// since their last synchronisation attempt: what the server holds
+    /// now is no longer what it held after the last successful
+    /// synchronisation.
+    pub server_wiped: std::collections::BTreeSet<String>,
 }
 
 pub fn start(r: &mut Runner) {
@@ -64,6 +69,7 @@ fn absorb_logs(r: &mut Runner) {
         else if let Some(rest) = line.strip_prefix("INFO Synchronize CA ") {
             // "Synchronize CA x with repository"
             if let Some(ca) = rest.strip_suffix(" with repository") {
+                r.ext.c19.server_wiped.remove(ca);
                 r.ext.c19.repo_outcome.insert(ca.to_string(), true);
                 r.ext.c19.attempts_seen += 1;
             }
@@ -275,7 +281,9 @@ pub fn at_caught_up(r: &mut Runner) {
     for mca in cas {
         let ca = mca.name.clone();
         let Some(status) = status_json(r, &ca) else { continue };
-        if r.ext.c19.repo_outcome.get(&ca) == Some(&true) {
+        if r.ext.c19.repo_outcome.get(&ca) == Some(&true)
+            && !r.ext.c19.server_wiped.contains(&ca)
+        {
             let mut shown: Vec<(String, String)> = status.get("repo")
                 .and_then(|s| s.get("published"))
                 .and_then(|p| p.as_array()).map(|list| {
